@@ -129,6 +129,9 @@ class StreamScenario:
                 if live: acts.append((("creq", k, op), 60))
         if self.open:
             acts += [("advance", 10)]
+            if self.cur_read is not None and self.cur_read not in self.done and up is not None:
+                _, _, t0, lim = self.issued[self.cur_read]
+                if lim is not None and self.now < t0 + lim: acts.append(("edge", 3))
             # the layer above keeps at most one write outstanding (async_sender's _write_in_progress)
             if self.cur_write is None or self.cur_write in self.done: acts.append(("write", 8))
             if up is not None: acts.append(("shutdown", 2))
@@ -144,6 +147,11 @@ class StreamScenario:
             n = rng.choice([1, 1, 1, 2, 2, 0]); self.resolve_pending = None; self.do(f"resolved {n}"); self.count(f"resolved-{n}")
         elif a == "advance":
             self.now_adv(rng.choice([1, 100, 499, 500, 999, 1000, 1500, 2999, 3000, 4999, 5000, 5001, 9000, 16500, 20000]))
+        elif a == "edge":
+            # probe the read limit at its boundary: one millisecond before it, then exactly at it
+            _, _, t0, lim = self.issued[self.cur_read]; d = t0 + lim - self.now
+            if d > 1: self.now_adv(d - 1)
+            self.now_adv(1); self.count("read-limit-edge")
         elif a == "write":
             self.nid += 1; self.cur_write = self.nid; data = rng.choice(["c000", "e000", "3005000174" + "61"]); self.issued[self.nid] = ("write", len(self.tr), self.now, data)
             self.do(f"write {self.nid} {data}"); self.count("write")
